@@ -719,6 +719,36 @@ def check_dynamic(ix, rep, rule='R-EXC'):
                 else:
                     rep.fail(rule, f.module.rel, f.qual, slot, 'the object looked up by name is called outside a try that turns TypeError into RTAMTException '
                              '(`from os import path` then `path p`: a module is not callable)', c.lineno)
+                # ... and it is called only if it is a class: the name comes from the specification text, and a function of an imported module is
+                # *run* by the call -- `from sys import exit` then `exit a` raises SystemExit, which no `except Exception` turns into RTAMTException
+                n += 1
+                slot = 'call:%s:class-only' % c.func.id
+                cfg_ = flow.CFG(f.node)
+                dom_ = cfg_.dominators()
+                nm_ = c.func.id
+
+                def _class_guard(st_, dn_):
+                    # `if not isinstance(x, type): raise ...` / `if not inspect.isclass(x): raise ...` dominating the call
+                    if not isinstance(st_, ast.If) or not any(isinstance(b_, ast.Raise) for b_ in st_.body):
+                        return False
+                    t_ = st_.test
+                    if not (isinstance(t_, ast.UnaryOp) and isinstance(t_.op, ast.Not)):
+                        return False
+                    t_ = t_.operand
+                    txt_ = ast.unparse(t_).replace(' ', '')
+                    return txt_ in ('isinstance(%s,type)' % nm_, 'inspect.isclass(%s)' % nm_, 'isclass(%s)' % nm_)
+                holder = c
+                parents_ = {}
+                for p_ in ast.walk(f.node):
+                    for ch_ in ast.iter_child_nodes(p_):
+                        parents_[id(ch_)] = p_
+                while id(holder) in parents_ and cfg_.node(holder) is None:
+                    holder = parents_[id(holder)]
+                if flow.dominated_by(cfg_, dom_, holder, _class_guard):
+                    rep.ok(rule, f.module.rel, f.qual, slot, 'only a class is instantiated', c.lineno)
+                else:
+                    rep.fail(rule, f.module.rel, f.qual, slot, 'whatever the imported module has under the type name is called: `from sys import exit` followed by `exit a` runs sys.exit() and '
+                             'SystemExit leaves parse() (a BaseException: no handler for Exception converts it)', c.lineno)
     return n
 
 
